@@ -19,7 +19,7 @@ import ast
 import z3
 from .base import *
 
-FILES = ["kafe2/fit/_base/plot.py", "kafe2/fit/xy/plot.py", "kafe2/fit/indexed/plot.py", "kafe2/fit/histogram/plot.py", "kafe2/fit/_base/cost.py"]
+FILES = ["kafe2/fit/_base/plot.py", "kafe2/fit/xy/plot.py", "kafe2/fit/indexed/plot.py", "kafe2/fit/histogram/plot.py", "kafe2/fit/unbinned/plot.py", "kafe2/fit/_base/cost.py"]
 META = {
     "level": "proof",
     "trusted_base": [
@@ -834,10 +834,88 @@ def u_render_legend(root):
     return eng
 
 
+
+# ------------------------------------------------------------------ unbinned: rug of the entries and density curve
+class Stack(VMat):
+    """np.column_stack([x, y]) of two 1-d arrays: a (len, 2) matrix that can be regrouped into (n, 2, 2) line segments"""
+
+    def vattr(self, e, st, name):
+        if name == "reshape":
+            return Fn(lambda e_, st_, a, kw: Segments(self, a[0].items[0].e))
+
+
+class Segments(V):
+    """lines[k][p] = (x, y) of end point p of segment k, stored row-major in a (2n, 2) matrix"""
+
+    def __init__(self, mat, n):
+        self.mat, self.n = mat, n
+
+    def end(self, k_, p_, c_):
+        return self.mat.arr[2 * k_ + p_][c_]
+
+
+def u_unbinned(root):
+    eng = base_engine(root)
+    inline(eng, "PlotAdapterBase", "x_range", "x_scale", "y_range", "y_scale")
+    eng.schema["PlotAdapterBase"].update({"_y_range": PYOBJ, "_y_scale": PYOBJ})
+    data = fitarr("data")
+    made = []
+    eng.consts["LineCollection"] = Fn(lambda e, st, a, kw: (made.append((a[0], dict(kw))), VOpaque("line_collection"))[1])
+    eng.lib["np.repeat"] = lambda e, st, a, kw, node: VSeq(FnArr(lambda j_: a[0].arr[j_ / 2]), a[0].len * 2)
+    eng.lib["np.tile"] = lambda e, st, a, kw, node: VSeq(FnArr(lambda j_: z3.If(j_ % 2 == 0, a[0].items[0].real(), a[0].items[1].real())), a[1].e * 2)
+    eng.lib["np.column_stack"] = lambda e, st, a, kw, node: Stack(FnArr(lambda r_: FnArr(lambda c_: z3.If(c_ == 0, a[0].items[0].arr[r_], a[0].items[1].arr[r_]))), a[0].items[0].len, z3.IntVal(2))
+    for g, spec in (("data_x", "data"), ("model_x", "data"), ("model_y", "model")):
+        c = Contract("UnbinnedPlotAdapter", g, "getter")
+        c.ensures.append(lambda vw, g=g, spec=spec: [(f"{g} is the fit's {spec}", seq_eq(vw.result, fitarr(spec)))])
+        eng.verify("UnbinnedPlotAdapter", g, "getter", setup(eng, "UnbinnedPlotAdapter", False), contract=c)
+    inline(eng, "UnbinnedPlotAdapter", "data_x", "model_x", "model_y", "model_line_x", "model_line_y")
+    M = z3.Int("n_plot_points")
+    for scale in ("linear", "log"):
+        X = x_support(scale)
+        c = Contract("UnbinnedPlotAdapter", "plot_model_line")
+
+        def post_line(vw, X=X):
+            cs, one = drawn(vw, "plot")
+            if len(cs) != 1:
+                return [one]
+            a = cs[0][2]
+            return [one, kwargs_forwarded(cs[0], STYLE), ("x = the support points over the plotted range", seq_eq(a[0], X, M)), ("y = the model density at the current parameters at these points", seq_eq(a[1], VSeq(FnArr(lambda k_: f_model(X.arr[k_])), M), M))]
+        c.ensures.append(post_line)
+        eng.verify("UnbinnedPlotAdapter", "plot_model_line", None, setup(eng, "UnbinnedPlotAdapter", False, scale, extra=with_points), contract=c, tag=f"({scale})")
+    y0, y1 = z3.Real("y_range_lo"), z3.Real("y_range_hi")
+    for height in ("default", "given"):
+        c = Contract("UnbinnedPlotAdapter", "plot_data")
+
+        def post_rug(vw, height=height):
+            added = calls_of(vw, "add_collection")
+            if len(made) != 1 or len(added) != 1 or not isinstance(made[0][0], Segments):
+                return [("one LineCollection is built and added to the target axes", z3.BoolVal(False))]
+            sg, kw = made[0]
+            top = y1 / 10 if height == "default" else z3.Real("given_height")
+            return [("one LineCollection is built and added to the target axes", z3.BoolVal(isinstance(added[0][2][0], VOpaque) and added[0][2][0].tag == "line_collection")),
+                    ("one segment per entry", sg.n == N),
+                    ("segment k is vertical at x = entry k, from the lower end of the y range up to a tenth of its upper end (or the given height)",
+                     z3.ForAll([k], z3.Implies(z3.And(0 <= k, k < N), z3.And(sg.end(k, 0, 0) == data.arr[k], sg.end(k, 1, 0) == data.arr[k], sg.end(k, 0, 1) == y0, sg.end(k, 1, 1) == top)))),
+                    ("style keywords forwarded, except the marker (a LineCollection has none)", z3.BoolVal("marker" not in kw and kw.get("color") is STYLE["color"]))]
+        c.ensures.append(post_rug)
+
+        def init(e, st, me_, height=height):
+            made.clear()
+            e.write_field(st, me_, "_y_range", VTuple([VNum(y0), VNum(y1)]))
+            e.write_field(st, me_, "_y_scale", VStr("linear"))
+            return {"height": VNone() if height == "default" else VNum(z3.Real("given_height")), "kwargs": VDict(dict(STYLE, marker=VStr("o")))}
+        eng.verify("UnbinnedPlotAdapter", "plot_data", None, setup(eng, "UnbinnedPlotAdapter", False, extra=init), contract=c, tag=f"(height {height})")
+    for panel in ("plot_ratio", "plot_residual"):
+        c = Contract("UnbinnedPlotAdapter", panel)
+        c.ensures.append(lambda vw: [("an unbinned fit has no data / model ratio or residuals: asking for the panel raises instead of drawing something", z3.BoolVal(vw.flow == "raise" and not calls_of(vw)))])
+        eng.verify("UnbinnedPlotAdapter", panel, None, setup(eng, "UnbinnedPlotAdapter", False, extra=lambda e, st, me_: {"kwargs": VDict({})}), contract=c)
+    return eng
+
+
 def units(root):
     return [Unit("get_uncertainty_gaussian_approximation (3 cost classes)", u_ga), Unit("adapter getters", u_getters), Unit("PlotAdapterBase._get_total_error", u_total_error),
             Unit("plot_ratio / plot_residual / plot_pull", u_panels), Unit("XYPlotAdapter main panel (data, model line, bands)", u_xy_main),
-            Unit("HistPlotAdapter / IndexedPlotAdapter main panel", u_hist_indexed_main), Unit("step_fill_between (indexed model steps)", u_step_fill),
+            Unit("HistPlotAdapter / IndexedPlotAdapter main panel", u_hist_indexed_main), Unit("step_fill_between (indexed model steps)", u_step_fill), Unit("UnbinnedPlotAdapter (rug, density curve)", u_unbinned),
             Unit("PlotAdapterBase.call_plot_method", u_dispatch), Unit("Plot._get_fit_info (legend text)", u_fit_info, bounded="2 model parameters; every combination of asymmetric / latex / errors valid / goodness of fit present / cost kind (chi2, saturated, other); formatter texts abstract tokens"),
             Unit("Plot._plot_and_get_results (several fits)", u_plot_results, bounded="1 - 3 fits per plot (xy and indexed plot-type tables), 4 axes layouts; style keywords, axes and artists abstract"),
             Unit("Plot._render_legend (results grouped with their fit)", u_render_legend, bounded="1 - 3 fits, every fit_info pattern, artists with / without legend handles, one bare container; handles and texts abstract")]
